@@ -25,7 +25,8 @@ class C08Check(C01Check):
             "a violation is a load whose value or slot differs. distinct = distinct (world hash, path list, query count); "
             "non-trivial = >=1 storage read compared and (>=2 paths or a fault fired)")
     bias = dict(storage=True, mapping=True, hashing=True, transient=True, calls=False, creates=False, logs=False,
-                copyops=False, msize=False, exp=False, mulmod=False, balance_reads=False, value_calls=False)
+                copyops=False, msize=False, exp=False, mulmod=False, balance_reads=False, value_calls=False,
+                n_bases=2, env=False, signed=False, max_stmts=7, max_expr_depth=1)
     kwargs = {"n_sigmas": 8, "check_pruned": False, "small_keys": True}
 
     def refine(self, v):
